@@ -24,14 +24,16 @@ Definition w_then_entry : sstmts :=
 Definition w_empty_body : sstmts :=
   one_fn [0] (SCons (SWhile (EIdent 0) (SBlock SNil)) (SCons SRet SNil)).
 
+(* both used to end in a dangling branch target (known findings KF-C17-1 / KF-C17-2, repaired by
+   eb19006 and 5d902b4): the merge blocks 2 and 6 now exist *)
 Lemma open_merge_witness :
-  lower w_open_merge = [mkfn [(3, TBr 0 2); (0, TGoto 2)] (Some 2) []]
-  /\ wf_prog (lower w_open_merge) = false.
+  lower w_open_merge = [mkfn [(3, TBr 0 2); (0, TGoto 2); (2, TRet)]]
+  /\ wf_prog (lower w_open_merge) = true.
 Proof. vm_compute. split; reflexivity. Qed.
 
 Lemma overwritten_witness :
-  lower w_overwritten = [mkfn [(3, TBr 0 2); (7, TBr 0 6); (0, TRet); (2, TRet)] None [6]]
-  /\ wf_prog (lower w_overwritten) = false.
+  lower w_overwritten = [mkfn [(3, TBr 0 2); (7, TBr 0 6); (0, TRet); (6, TGoto 2); (2, TRet)]]
+  /\ wf_prog (lower w_overwritten) = true.
 Proof. vm_compute. split; reflexivity. Qed.
 
 (* reachability from the first block, to state the then-entry defect *)
@@ -58,13 +60,13 @@ Definition reachable_ids (bl : list block) : list N :=
    the outer branch enters the block that follows the inner if *)
 Lemma then_entry_witness :
   lower w_then_entry =
-    [mkfn [(3, TBr 0 2); (7, TBr 4 0); (4, TGoto 0); (0, TGoto 2); (2, TRet)] None []]
+    [mkfn [(3, TBr 0 2); (7, TBr 4 0); (4, TGoto 0); (0, TGoto 2); (2, TRet)]]
   /\ wf_prog (lower w_then_entry) = true
   /\ memN 7 (reachable_ids [(3, TBr 0 2); (7, TBr 4 0); (4, TGoto 0); (0, TGoto 2); (2, TRet)]) = false.
 Proof. vm_compute. repeat split; reflexivity. Qed.
 
 Lemma empty_body_witness :
-  lower w_empty_body = [mkfn [(3, TGoto 1); (1, TBr 1 2); (2, TRet)] None []].
+  lower w_empty_body = [mkfn [(3, TGoto 1); (1, TBr 1 2); (2, TRet)]].
 Proof. vm_compute. reflexivity. Qed.
 
 (* ====================================================================================== *)
@@ -107,7 +109,7 @@ Definition stable (s s' : st) : Prop := forall v, v < next s -> avail s v -> ava
 Definition Step (s s' : st) : Prop := U s' /\ OutOK s' /\ next s <= next s' /\ stable s s'.
 
 Definition StepX (t : N) (s s' : st) : Prop :=
-  U s' /\ OutOK s' /\ next s' = next s /\ forall v, v <> t -> avail s v -> avail s' v.
+  U s' /\ OutOK s' /\ next s <= next s' /\ forall v, v < next s -> v <> t -> avail s v -> avail s' v.
 
 Ltac step_split := unfold Step, StepX; split; [|split; [|split]].
 
@@ -190,7 +192,7 @@ Lemma fixup_step t s : U s -> OutOK s -> avail s t -> StepX t s (fixup t s).
 Proof.
   intros (ND & LT & PD) O (A & B & C). unfold fixup.
   destruct (blocks s) as [|[old tm] r] eqn:Eb.
-  - step_split; [split; [|split]; assumption|exact O|reflexivity|intros v _ H; exact H].
+  - step_split; [split; [|split]; assumption|exact O|lia|intros v _ _ H; exact H].
   - unfold ids in *. rewrite Eb in *. cbn [map fst] in *.
     inversion ND as [|? ? Hold NDr]; subst.
     step_split.
@@ -200,27 +202,41 @@ Proof.
       * intros p Hp. destruct (PD p Hp) as [P1 P2]. split; [exact P1|].
         intros [<-|H']; [apply C; assumption|]. apply P2. right. assumption.
     + exact O.
-    + reflexivity.
-    + intros v Hne (A' & B' & C'). split; [exact A'|split].
+    + cbn. lia.
+    + intros v _ Hne (A' & B' & C'). split; [exact A'|split].
       * unfold ids; cbn. intros [E|H]; [congruence|]. apply B'. unfold ids. rewrite Eb. right. exact H.
       * exact C'.
 Qed.
 
-Lemma noop_step t s : U s -> OutOK s -> avail s t -> StepX t s (noop t s).
+Lemma fixup_next t s : next (fixup t s) = next s.
+Proof. unfold fixup. destruct (blocks s) as [|[a b] r]; reflexivity. Qed.
+
+Lemma noop_raw_step t s : U s -> OutOK s -> avail s t -> StepX t s (noop_raw t s).
 Proof.
-  intros (ND & LT & PD) O (A & B & C). unfold noop. step_split.
+  intros (ND & LT & PD) O (A & B & C). unfold noop_raw. step_split.
   - split; [|split]; unfold ids; cbn; try assumption.
     intros p Hp. inversion Hp; subst. split; assumption.
   - exact O.
-  - reflexivity.
-  - intros v Hne (A' & B' & C'). split; [exact A'|split; [exact B'|]]. cbn. congruence.
+  - cbn. lia.
+  - intros v _ Hne (A' & B' & C'). split; [exact A'|split; [exact B'|]]. cbn. congruence.
+Qed.
+
+Lemma noop_step t s : U s -> OutOK s -> avail s t -> StepX t s (noop t s).
+Proof.
+  intros Hu O Av. unfold noop.
+  destruct (pending s) as [p|] eqn:Ep; [destruct (p =? t) eqn:Ept|]; try (apply noop_raw_step; assumption).
+  destruct (seal_step (TGoto t) s Hu O) as (Hu' & O' & L & St).
+  assert (Av' : avail (seal (TGoto t) s) t) by (apply St; [apply Av|exact Av]).
+  destruct (noop_raw_step t _ Hu' O' Av') as (Hu2 & O2 & L2 & St2).
+  step_split; try assumption; try lia.
+  intros v Hv Hne Ha. apply St2; [lia|exact Hne|]. apply St; assumption.
 Qed.
 
 (* a consumed id is >= the base of the enclosing construct, so outer ids stay available *)
 Lemma Step_X base t a b : Step base a -> StepX t a b -> next base <= t -> Step base b.
 Proof.
   intros (Ua & Oa & L & S) (Ub & Ob & E & SX) Ht. step_split; try assumption; try lia.
-  intros v Hv Hav. apply SX; [lia|]. apply S; assumption.
+  intros v Hv Hav. apply SX; [lia|lia|]. apply S; assumption.
 Qed.
 
 Lemma seal_unless_step t s : U s -> OutOK s -> Step s (seal_unless_terminated t s).
@@ -239,11 +255,17 @@ Qed.
 
 Lemma finalize_nonempty s : blocks (finalize s) <> [].
 Proof.
-  unfold finalize. destruct (dirty s) eqn:Ed; cbn.
+  unfold finalize. destruct (_ || _) eqn:E.
   - unfold seal. destruct (pending s); cbn; discriminate.
-  - destruct (blocks s) eqn:Eb; cbn.
-    + unfold seal. destruct (pending s); cbn; discriminate.
-    + rewrite Eb. discriminate.
+  - destruct (blocks s) eqn:Eb; [|discriminate].
+    destruct (dirty s); cbn in E; discriminate.
+Qed.
+
+Lemma finalize_pending s : pending (finalize s) = None.
+Proof.
+  unfold finalize. destruct (pending s) as [p|] eqn:Ep.
+  - rewrite orb_true_r. unfold seal. rewrite Ep. reflexivity.
+  - destruct (_ || _); [unfold seal; rewrite Ep; reflexivity|exact Ep].
 Qed.
 
 Lemma fn_enter_U c p s : OutOK s -> U (fn_enter c p s) /\ OutOK (fn_enter c p s).
@@ -282,7 +304,7 @@ Proof. intros (A & B & C & D). split; [|split; [|split]]; try assumption. intros
 Lemma StepL_StepX t s s' : StepX t s s' -> StepL [t] s s'.
 Proof.
   intros (A & B & C & D). split; [|split; [|split]]; try assumption; try lia.
-  intros v Hv Hn H. apply D; [|assumption]. intro E. apply Hn. left. congruence.
+  intros v Hv Hn H. apply D; [exact Hv| |assumption]. intro E. apply Hn. left. congruence.
 Qed.
 Lemma StepL_trans l1 l2 a b c : StepL l1 a b -> StepL l2 b c -> StepL (l1 ++ l2) a c.
 Proof.
